@@ -24,12 +24,14 @@ CHECKS = {
    note=PROOF_NOTE + ' Floats enter only through round() and grade*credit: cases within 1e-9 of a rounding tie are counted (float_tie) and skipped; grades compared within 1e-12.',
    technique='Lean 4 proof (monotone rounding, case analysis) + exhaustive-grid correspondence', design='§6 C17'),
  'C03': dict(
-   text='Token-level PEG model of the expression grammar with the library\'s node evaluators over an arbitrary operator algebra; proved: for every expression tree, parsing its '
-        'minimally parenthesised rendering succeeds and evaluates to the textbook value (precedence/associativity/signed exponents/parentheses for all operator sequences of all lengths), spaces irrelevant. '
+   text='Token-level PEG model of the expression grammar with the library\'s node evaluators over an arbitrary operator algebra; proved: (1) for every expression tree, the executable parser (concrete fuel) parses its '
+        'minimally parenthesised rendering to a tree that evaluates to the textbook value (precedence/associativity/signed exponents/parentheses for all operator sequences of all lengths), spaces irrelevant, redundant parentheses transparent, node-evaluator laws; '
+        '(2) soundness w.r.t. the token string: a successful parse consumed exactly the tokens of its tree in order (parse_yield), hence every string with a doubled operator, juxtaposed operands, empty brackets / argument list, '
+        'leading or trailing operator is rejected in every context, and a foreign character anywhere makes the lexer fail; (3) fuel adequacy: beyond 8n+6 the fuel never changes a result, so a rejection is genuine. '
         'Tie: exact parse-tree equality with pyparsing on generated/mutated strings, evaluator value vs exact rational model value, independent precedence-climbing oracle, rejection families.',
-   note=PROOF_NOTE + ' Partial: numeric leaves (float literal rounding, non-integer/complex powers, arrays, numpy functions) are outside the model; lexer round trip with arbitrary tab/newline placement and the rejection '
-        'families are established by the correspondence run, not yet by theorem.',
-   technique='Lean 4 proof (parser round trip by strong induction, phrase predicates) + differential tree/value correspondence', design='§6 C03'),
+   note=PROOF_NOTE + ' Partial: numeric leaves (float literal rounding, non-integer/complex powers, arrays, numpy functions) are outside the model; the lexer round trip with arbitrary tab/newline placement '
+        'is established by the correspondence run, not by theorem; the rejection theorems give necessary conditions for acceptance (adjacency table), completeness of the grammar is the round-trip theorem.',
+   technique='Lean 4 proof (parser round trip by strong induction, soundness/adjacency invariant and fuel stability by induction over all 12 mutually recursive parsers) + differential tree/value correspondence', design='§6 C03'),
  'C10': dict(
    text='Side-effecting model of the parser (scratch never rolled back on abandoned alternatives) proved to report exactly the names of the resulting tree; parser object (cache + scratch + finally-reset) '
         'modelled as a state machine with theorem: after ANY history of parse calls the outcome for a string equals a fresh parser\'s. '
@@ -46,17 +48,17 @@ CHECKS = {
  'C07': dict(
    text='SingleListGrader.check_response / process_grade_list / consolidate_grades / find_optimal_order modelled over an arbitrary subgrader; proved: the grade is answer credit x credit(max 0 ((best - surplus)/n_expected)) '
         'with best = total of an assignment no other one-to-one assignment beats (corollary of the Munkres theorem on the padded square credit matrix) resp. the positional total when ordered; partial_credit=False gives the answer credit or 0; '
-        'message rule; length_error checked first, missing_error lists exactly the blank positions. Tie: real SingleListGraders (flat and one nesting level, single/multi-character delimiters, all options) over a table-driven subgrader with exact Fraction credits, '
+        'message rule; length_error checked first, missing_error lists exactly the blank positions; the unordered grade is invariant under every permutation of the submitted items. Tie: real SingleListGraders (flat and one nesting level, single/multi-character delimiters, all options) over a table-driven subgrader with exact Fraction credits, '
         'compared exactly incl. the tie choices of the matching; brute-force oracle over all injective assignments; permutation invariance checked on the implementation.',
-   note=PROOF_NOTE + ' Permutation invariance of the unordered grade is checked per case on the implementation (oracle) and follows from optimality; it is not yet stated as a separate Lean theorem.',
+   note=PROOF_NOTE + ' Permutation invariance of the unordered grade is a Lean theorem (single_list_perm_invariant, for every permutation of the item positions) and is also checked per case on the implementation.',
    technique='Lean 4 proof (credit formula via Munkres optimality theorem) + exact correspondence + brute-force oracle', design='§6 C07'),
  'C05': dict(
    text='ListGrader.check / perform_check / find_optimal_order / get_best_result / groupify / ungroupify modelled over arbitrary subgrader check functions; proved: ordered = pointwise subgrader results; '
         'unordered (no grouping) = results R i (tau i) of a permutation tau whose total credit no permutation beats, reported one per input in input order (corollary of the Munkres total-correctness theorem); '
-        'the reported answer list is a candidate with maximal total; partial_credit=False zeroes everything unless all entries are fully correct; a wrong number of inputs is a ConfigError. '
+        'the reported answer list is a candidate with maximal total; accepted groupings are partitions of the input positions and every result is stored at the position of the input it grades (grouped_entry_position); partial_credit=False zeroes everything unless all entries are fully correct; a wrong number of inputs is a ConfigError. '
         'Tie: real ListGraders (ordered/unordered, 1-3 answer lists, subgrader lists incl. SingleListGraders, grouping with nested ListGraders) over a table-driven ItemGrader with exact Fraction credits, whole input_list compared exactly; '
         'oracle: exhaustive n! assignment search and per-position recomputation.',
-   note=PROOF_NOTE + ' Position reporting under grouping (ungroupify o groupify) is covered by the correspondence and the per-group position oracle, not yet by a Lean theorem; numpy float sums in get_best_result are exact only for the dyadic credits used there.',
+   note=PROOF_NOTE + ' Position reporting under grouping is a Lean theorem (create_grouping_map yields a partition; ungroupify stores the j-th result of group g at the position of the j-th input of group g) under the shape contract of the subgraders (C01), and is also checked by the per-group position oracle; numpy float sums in get_best_result are exact only for the dyadic credits used there.',
    technique='Lean 4 proof (optimal assignment via Munkres theorem, max-total selection) + exact correspondence + n! oracle', design='§6 C05'),
  'C01': dict(
    text='AbstractGrader.__call__ (error mapping, key stripping, attempt credit, debug append, message formatting) modelled on top of the item/list combinators; proved: shape (single form for one input; list form with exactly one entry per checked entry), '
